@@ -52,4 +52,10 @@ CLAIMS = {
         note="Decision table compared with a reference written from docs (keys.md 'Class matter', command-line 'ingress-class'); the legacy controller's copy of IsValidIngress is not exercised; routing read through harness/hapcfg.",
         technique="exhaustive enumeration of the decision table + stateful property-based testing (rapid) against a reference model of class selection and routing",
     ),
+    "C15": dict(
+        text="Generated histories of ingress TLS declarations and secret create/rotate/delete are run through the real controller and a simulated HAProxy; after every reconciliation the certificate the running process serves for every SNI of the alphabet is compared with the documented selection computed from the objects (first-created declaring ingress, else default; never another tenant's).",
+        design_ref="DESIGN.md section 3, C15",
+        note="Trusts simhap (reload loads the crt-list and PEM files; set/commit ssl cert replaces the PEM of a loaded file) and the SNI lookup order of HAProxy as implemented in hapcfg.SelectCert.",
+        technique="stateful property-based testing (rapid) against a reference model of certificate selection, observed on a simulated HAProxy",
+    ),
 }
